@@ -417,3 +417,61 @@ func VerifH_c13_parser_lengths() {
 		vNote(msg)
 	}
 }
+
+// VerifH_c13_parser_headers: every length-taking header of the protocol
+// with an arbitrary 64-bit number in it, through the public entry point
+// (the callers' own checks on the number are part of what is verified):
+// bulk strings, blob errors, verbatim strings, all aggregates, and the
+// chunk headers of streamed strings.
+func VerifH_c13_parser_headers() {
+	VerifSetup()
+	prefixes := []string{"$", "*", "%", "~", ">", "|", "!", "=", "$?\r\n;", "!?\r\n;", "=?\r\n;", "$?\r\n;1\r\nx\r\n;", "*1\r\n$", "*2\r\n$1\r\na\r\n$", ":"}
+	p := prefixes[vChoice("prefix", len(prefixes))]
+	n := vDecimal("n")
+	restMax := 2
+	if vTier() > 0 {
+		restMax = 3
+	}
+	rest := vBytes("rest", restMax)
+	content := append([]byte(p+n+"\r\n"), rest...)
+	rd := newRespDeserializer(vLane, content)
+	var length int
+	var valid bool
+	panicked, msg := vCatch(func() { _, length, valid = rd.deserializeNext() })
+	vAssert("parser-headers-no-panic", !panicked)
+	if panicked {
+		vNote(msg)
+		return
+	}
+	vAssert("parser-headers-consumed-in-range", !valid || (length > 0 && length <= len(content)))
+}
+
+// VerifH_c13_queued_exec: every session / introspection command queued in
+// a transaction and then executed by EXEC gets its reply: EXEC returns (no
+// self-deadlock on the database ownership EXEC holds, no panic), with one
+// result per queued command, and a second connection is served afterwards.
+func VerifH_c13_queued_exec() {
+	VerifSetup()
+	disp := vNewServer()
+	cs := vNewClientOn(disp)
+	other := vNewClientOn(disp)
+	i := vChoice("cmd", len(vSessionCommands))
+	c := vSessionCommands[i]
+	vAssume(c[0] != "MULTI" && c[0] != "EXEC" && c[0] != "DISCARD" && c[0] != "WATCH")
+	vCmd(cs, "MULTI")
+	q := vCmd(cs, c...)
+	var r respValue
+	panicked, msg := vCatch(func() { r = vCmd(cs, "EXEC") })
+	vAssert("exec-of-queued-command-no-panic", !panicked)
+	if panicked {
+		vNote(msg)
+		return
+	}
+	if vIsErr(q) {
+		vAssert("exec-after-rejected-command-aborts", vIsErr(r))
+	} else {
+		a, ok := vArrayOf(r)
+		vAssert("exec-one-result-per-queued-command", ok && len(a) == 1)
+	}
+	vAssert("other-connection-served-afterwards", vIsOK(vCmd(other, "SET", "x", "1")))
+}
